@@ -132,7 +132,42 @@ func c09Error(o *Out, kind string, txid []byte, client bool, chain []string) {
 	c09ErrorD(o, kind+"-debug", txid, client, chain, true)
 }
 
+// c09Hook: a pre-hook that lets everything pass (rej == nil) or rejects everything with rej.
+type c09Hook struct{ rej error }
+
+func (h *c09Hook) HandleAnnounce(ctx context.Context, _ *bittorrent.AnnounceRequest, _ *bittorrent.AnnounceResponse) (context.Context, error) {
+	return ctx, h.rej
+}
+func (h *c09Hook) HandleScrape(ctx context.Context, _ *bittorrent.ScrapeRequest, _ *bittorrent.ScrapeResponse) (context.Context, error) {
+	return ctx, h.rej
+}
+
+// c09ViaLogic: the error reaches WriteError the way it does in the handler: returned by middleware.Logic, whose k-th pre-hook
+// rejected the request with it (via 1 = announce, 2 = scrape; the hooks before it pass).
+func c09ViaLogic(err error, via int) error {
+	hooks := []middleware.Hook{&c09Hook{}, &c09Hook{}, &c09Hook{rej: err}, &c09Hook{}}[2-(via+len(err.Error()))%3:]
+	logic := middleware.NewLogic(middleware.ResponseConfig{AnnounceInterval: 30 * time.Minute, MinAnnounceInterval: 15 * time.Minute}, &c09Store{tbl: map[string]c09Triple{}}, hooks, nil)
+	var lerr error
+	if via == 1 {
+		_, _, lerr = logic.HandleAnnounce(context.Background(), &bittorrent.AnnounceRequest{Peer: bittorrent.Peer{IP: bittorrent.IP{IP: net.IP{10, 0, 0, 1}, AddressFamily: bittorrent.IPv4}, Port: 1}})
+	} else {
+		_, _, lerr = logic.HandleScrape(context.Background(), &bittorrent.ScrapeRequest{AddressFamily: bittorrent.IPv4, InfoHashes: []bittorrent.InfoHash{{}}})
+	}
+	if lerr == nil {
+		fmt.Fprintln(os.Stderr, "c09ViaLogic: the rejecting hook was not run")
+		os.Exit(3)
+	}
+	return lerr
+}
+
 func c09ErrorD(o *Out, kind string, txid []byte, client bool, chain []string, debug bool) {
+	c09ErrorV(o, kind, txid, client, chain, debug, 0)
+	if !debug {
+		c09ErrorV(o, kind+"-via-logic", txid, client, chain, debug, 1+len(chain[0])%2)
+	}
+}
+
+func c09ErrorV(o *Out, kind string, txid []byte, client bool, chain []string, debug bool, via int) {
 	if debug {
 		clog.SetDebug(true)
 		defer clog.SetDebug(false)
@@ -141,12 +176,16 @@ func c09ErrorD(o *Out, kind string, txid []byte, client bool, chain []string, de
 	for _, s := range chain {
 		cj = append(cj, hx([]byte(s)))
 	}
-	in := map[string]interface{}{"t": "err", "txid": hx(txid), "client": client, "chain": cj, "debug": debug}
+	in := map[string]interface{}{"t": "err", "txid": hx(txid), "client": client, "chain": cj, "debug": debug, "via": via}
 	err := c09MkErr(client, chain)
 	var ce bittorrent.ClientError
 	isClient := errors.As(err, &ce)
+	sent := err
+	if via != 0 {
+		sent = c09ViaLogic(err, via)
+	}
 	var buf bytes.Buffer
-	udp.WriteError(&buf, append([]byte{}, txid...), err)
+	udp.WriteError(&buf, append([]byte{}, txid...), sent)
 	out := buf.Bytes()
 	o.add(Case{Coq: fmt.Sprintf("CErr %s %s %s %s", cB(txid), cOpt(isClient, cB([]byte(ce.Error()))), cB([]byte(err.Error())), cB(out)),
 		In: in, Kind: kind, Obs: map[string]interface{}{"datagram": hx(out), "text_on_wire": string(out[minInt(8, len(out)):])}})
@@ -246,7 +285,7 @@ func c09Replay(o *Out, in map[string]interface{}) error {
 		for _, x := range l {
 			chain = append(chain, string(unhx(x)))
 		}
-		c09ErrorD(o, "replay", txid, jBool(in["client"]), chain, jBool(in["debug"]))
+		c09ErrorV(o, "replay", txid, jBool(in["client"]), chain, jBool(in["debug"]), int(jInt(in["via"])))
 	case "hscr":
 		var ihs [][]byte
 		l, _ := in["ihs"].([]interface{})
